@@ -3,6 +3,8 @@ package main
 // Calls: builtins, contracts at call sites, havoc of unknown callees.
 
 import (
+	"strconv"
+	"sort"
 	"fmt"
 	"go/ast"
 	"go/types"
@@ -390,7 +392,7 @@ func (fx *FnExec) callHavoc(in ssa.Instruction, c *ssa.CallCommon, args []Val, r
 			// caller alone (pool ownership, DESIGN.md F5/F9): modelled as a fresh reference whose
 			// fields are arbitrary.
 			if pi := fx.W.poolOf(c.Args[0]); pi != nil && pi.elem != nil && pi.newFn != nil {
-				fx.assume(fmt.Sprintf("(= (i.tag %s) %d)", r.S, fx.W.typeTag(pi.elem)))
+				fx.assume(fmt.Sprintf("(= (i.tag %s) %d)", r.S, fx.tagOf(pi.elem)))
 				switch pi.elem.Underlying().(type) {
 				case *types.Pointer, *types.Map:
 					fx.adoptFresh("(i.pay " + r.S + ")")
@@ -590,6 +592,7 @@ func (fx *FnExec) execBuiltin(in ssa.Instruction, b *ssa.Builtin, c *ssa.CallCom
 	case "delete":
 		m, k := fx.term(args[0]), fx.term(args[1])
 		mt := c.Args[0].Type().Underlying().(*types.Map)
+		fx.hashableKey(in, mt, k)
 		if fx.onStore != nil {
 			fx.onStore(fx, in, &Place{Kind: PCell, Ref: m, Elem: mt}, Val{})
 		}
@@ -617,6 +620,20 @@ func (fx *FnExec) execBuiltin(in ssa.Instruction, b *ssa.Builtin, c *ssa.CallCom
 		}
 	case "ssa:wrapnilchk":
 		setRes(args[0])
+	case "StringData":
+		// unsafe.StringData(s): pointer to byte 0 of s; only reads through it are modelled, each
+		// with the obligation that the offset is inside the string
+		setRes(Val{P: &Place{Kind: PStrByte, Ref: fx.term(args[0]), Idx: "0", Elem: types.Typ[types.Byte]}, S: fx.havoc("strdata", "Int")})
+	case "Add":
+		// unsafe.Add(p, n) on a string-data pointer
+		if pl := args[0].P; pl != nil && pl.Kind == PStrByte {
+			setRes(Val{P: &Place{Kind: PStrByte, Ref: pl.Ref, Idx: fx.define("stroff", "Int", "(+ "+pl.Idx+" "+fx.term(args[1])+")"), Elem: pl.Elem}, S: fx.havoc("strptr", "Int")})
+		} else {
+			if in2, ok := in.(ssa.Value); ok {
+				setRes(Val{S: fx.havoc("bi", fx.sortOf(in2.Type()))})
+			}
+			fx.notes = append(fx.notes, "unsupported builtin Add on a pointer that is not string data")
+		}
 	case "print", "println", "panic", "recover":
 		if in2, ok := in.(ssa.Value); ok {
 			setRes(Val{S: fx.havoc("bi", fx.sortOf(in2.Type()))})
@@ -961,10 +978,24 @@ func (fx *FnExec) atCallAsserts(in ssa.Instruction, c *ssa.CallCommon, args []Va
 		name = "dyn(" + strings.Join(ps, ",") + ")"
 	}
 	for k, ac := range fx.C.AtCall {
-		if ac.Callee != name {
+		callee, ord := ac.Callee, 0
+		if i := strings.LastIndex(callee, "#"); i > 0 {
+			// NAME#k: only the k-th call of NAME in source order
+			if n, err := strconv.Atoi(callee[i+1:]); err == nil {
+				callee, ord = callee[:i], n
+			}
+		}
+		if callee != name {
 			continue
 		}
-		env := &evalEnv{fx: fx, heap: fx.cur.heap, oldHeap: fx.heap0, bound: map[string]cval{}}
+		if ord > 0 && fx.callOrdinal(in, name) != ord {
+			continue
+		}
+		if fx.atcallHit == nil {
+			fx.atcallHit = map[int]bool{}
+		}
+		fx.atcallHit[k] = true
+		env := &evalEnv{fx: fx, heap: fx.cur.heap, oldHeap: fx.heap0, bound: map[string]cval{}, at: in.Block()}
 		for i, a := range args {
 			if a.S == "" {
 				a.S = fx.term(a)
@@ -991,6 +1022,52 @@ func (fx *FnExec) atCallAsserts(in ssa.Instruction, c *ssa.CallCommon, args []Va
 		o := fx.oblige("atcall", t, in, fmt.Sprintf("at the call of %s (#%d): %s", ac.Callee, k+1, ac.Expr.Text))
 		o.Props = ac.Expr.Props
 	}
+}
+
+// callSiteName: the name under which atcall clauses address a call.
+func (fx *FnExec) callSiteName(c *ssa.CallCommon) string {
+	if f := c.StaticCallee(); f != nil {
+		return calleeName(f)
+	}
+	if c.IsInvoke() {
+		return namedTypeName(c.Value.Type()) + "." + c.Method.Name()
+	}
+	return ""
+}
+
+// callOrdinal: 1-based position of the call among the calls of the same callee in this function,
+// in source order.
+func (fx *FnExec) callOrdinal(in ssa.Instruction, name string) int {
+	if fx.callOrd == nil {
+		fx.callOrd = map[ssa.Instruction]int{}
+		by := map[string][]ssa.Instruction{}
+		for _, b := range fx.Fn.Blocks {
+			for _, i2 := range b.Instrs {
+				var c *ssa.CallCommon
+				switch x := i2.(type) {
+				case *ssa.Call:
+					c = x.Common()
+				case *ssa.Defer:
+					c = x.Common()
+				case *ssa.Go:
+					c = x.Common()
+				}
+				if c == nil {
+					continue
+				}
+				if n := fx.callSiteName(c); n != "" {
+					by[n] = append(by[n], i2)
+				}
+			}
+		}
+		for _, list := range by {
+			sort.SliceStable(list, func(i, j int) bool { return list[i].Pos() < list[j].Pos() })
+			for i, i2 := range list {
+				fx.callOrd[i2] = i + 1
+			}
+		}
+	}
+	return fx.callOrd[in]
 }
 
 // havocGhost makes a ghost variable arbitrary (only if the function has touched or will touch it:
